@@ -238,3 +238,17 @@ PLAN['C12'] = {
                     'float identities of ax_ctx: each proved for all f32 by the Kani harness ctxax::c12__ctxax_*'],
 }
 del NOT_APPLICABLE['C12']
+
+PLAN['C14'] = {
+    'level': 'other',
+    'technique': 'contract-based deductive verification (Verus) of the Shape-level tracing evaluator wrapper of shape/mod.rs on its real text, generic over the wrapped evaluator, the coordinate type and the variable-value type; bounded native contract runner over permutations of variables, supply orders and transforms on both back ends',
+    'level_text': 'Partial (the tracing evaluators: point and box evaluation; binding clause). Proved for every evaluator E: TracingEvaluator, every tape whose variable map is well-formed, all coordinates, every optional transform and every set of supplied variable values: ShapeTracingEval::eval_raw calls the wrapped evaluator on an argument vector in which, for every entry (var, index) of the tape\'s variable map, slot index holds the value of var - the (converted, then transformed) x, y or z for the axes, the converted supplied value for Var::V(i) - independently of the order in which the map enumerates its entries and of anything else in the supplied set (extra variables are never read); the result is the wrapped evaluator\'s first output on that vector; a variable of the map that is not supplied yields the MissingVar error and nothing else is an error (the inner argument error is proved unreachable); the four public wrappers eval / eval_with_transform / eval_with_vars / eval_with_transform_and_vars are eval_raw with the corresponding arguments.  That simplification keeps the variable numbering is proved under C04 (simplify ensures r.vars == self.vars).  NOT covered by proof: the many-point and gradient wrappers (ShapeBulkEval::eval_raw takes a closure with a &mut slice argument; bounded contracts total part (d) and shape_bind exercise them), VarMap index assignment itself (HashMap: stub whose well-formedness is assumed), Transformable for f32/Interval/Grad (nalgebra), the solver/GPU/mesher call sites.',
+    'level_note': 'Level other: the binding mechanism of the tracing wrappers is proved generically; the other evaluator kinds and the construction of the variable map are outside the technique (closures over &mut slices, HashMap entry API, nalgebra) and are only exercised by bounded contracts. Trusted: Verus+Z3; stubs VarMap (entries/wf/len/iter_vec), ShapeVars (finite map), Matrix4 (opaque); the trait contracts of TracingEvaluator::eval (satisfied by the VM evaluators: unit vm) and Transformable::transform; extractor rules R-iter, R-alias, R-derive-from, R-spec-in-trait.',
+    'legs': [leg_verus('shape'), leg_bounded('shape_bind')],
+    'cex': ['shape_bind'],
+    'explanation': 'bound(s, map, x, y, z, vars): s[index] == bind(var) for every entry of the map; the loop invariant carries it for the entries visited so far (distinct indices keep earlier slots intact) together with "no visited free variable is missing".',
+    'assumptions': ['VarMap::wf (every variable once, indices distinct and below len): established by VarMap::insert (HashMap; not under contract; bounded contract flatten compares whole pipelines)',
+                    'TracingEvaluator::eval contract: Err iff fewer arguments than variables; outputs = out_spec(tape, arguments), one per tape output (proved for the VM evaluators in unit vm, bounded for the JIT)',
+                    'Into conversions obey their spec (obeys_into_spec is a precondition)'],
+}
+del NOT_APPLICABLE['C14']
